@@ -29,13 +29,13 @@ REQUIRED = ["route.list", "route.one-by-one", "route.scenario", "route.xml", "ro
             "shape-coherence.ShapeGroup", "get_obstacles", "map_obstacles_to_lanelets", "contains_points",
             "kind.adjacent", "kind.crossing", "kind.nested", "provenance.placed-angle-0", "provenance.placed",
             "provenance.translate_rotate", "provenance.deepcopy", "provenance.after-setters",
-            "obstacle-absent-at-query-time", "contains_points.single-point", "route.deferred-index", "route.deferred-remove",
+            "obstacle-absent-at-query-time", "contains_points.single-point", "route.deferred-index", "route.pending-index", "qshape.u-polygon-around-lanelet-end", "route.deferred-remove",
             "route.translate-before-index"]
 ASSUMPTIONS = ["lanelet polygons are simple (strips with strictly increasing abscissa)",
                "circle queries within 0.2% of the radius of a boundary are not judged (shapely discs are 64-gons)"]
 SHARDS = {"quick": 4, "thorough": 16}
 ROUTES = ["list", "one-by-one", "scenario", "xml", "protobuf", "deepcopy", "pickle", "cutout-copy", "add-remove-add",
-          "copy-then-edit-both", "deferred-index", "deferred-remove", "translate-before-index"]
+          "copy-then-edit-both", "deferred-index", "deferred-remove", "translate-before-index", "pending-index"]
 
 
 def build(route, lanelets, rng):
@@ -74,6 +74,16 @@ def build(route, lanelets, rng):
         res = [(route + "-removed", copy.copy(net))] if False else []
         net.add_lanelet(copy.deepcopy(victim))
         return res + [(route, net)]
+    if route == "pending-index":
+        # a lanelet was added with rtree=False and the index has NOT been re-built yet (documented batch usage: look-ups
+        # through the index are the caller's business until then). The queries that are defined on the lanelets' polygons
+        # -- contains_points, get_obstacles, map_obstacles_to_lanelets, filter_obstacles_in_network -- do not depend on it
+        from vf.gen import lattice
+        net = LaneletNetwork.create_from_lanelet_list(ls[:-1]) if len(ls) > 1 else LaneletNetwork()
+        if len(ls) > 1:
+            net.find_lanelet_by_position([ls[0].center_vertices[0]])  # (the index exists and has been used)
+        net.add_lanelet(copy.deepcopy(ls[-1]), rtree=False)
+        return [("pending-index", net)]
     if route in ("deferred-index", "deferred-remove", "translate-before-index"):
         # add_lanelet / remove_lanelet with rtree=False defer the re-build of the spatial index (documented batch usage);
         # the next indexing operation must leave an index that describes exactly the lanelets the network holds then
@@ -170,18 +180,31 @@ def run(ctx):
             pts = lattice.lattice_points(rng, cur)
             for kind, _ in pts:
                 ctx.feature("point." + kind)
+            pending = label == "pending-index"
             try:
+                if pending:
+                    raise StopIteration
                 # one call with all points and single calls: the contracts judge each returned list
                 net.find_lanelet_by_position([np.array(p) for _, p in pts])
                 for _, p in pts[:3]:
                     net.find_lanelet_by_position([np.array(p)])
+            except StopIteration:
+                pass
             except Exception as e:  # noqa
                 ctx.violation("C06/find_lanelet_by_position/raises-%s/%s" % (type(e).__name__, label.split("-")[0]),
                               repr(e), {"route": label})
             shapes = lattice.query_shapes(rng, cur, G)
+            if pending:
+                # obstacles on the lanelet that is not indexed yet come first
+                new_la = cur[-1]
+                c_ = new_la.center_vertices[len(new_la.center_vertices) // 2]
+                shapes = [("rect-on-pending-lanelet", Rectangle(1.0, 0.5, np.array([float(c_[0]), float(c_[1])]), 0.0),
+                           False)] + list(shapes)
             for kind, shp, exact in shapes:
                 ctx.feature("qshape." + kind)
                 ctx.evaluation()
+                if pending:
+                    continue
                 try:
                     net.find_lanelet_by_shape(shp)
                 except Exception as e:  # noqa
